@@ -315,6 +315,10 @@ type WriteCloser interface {
 	CloseWrite() error
 }
 
+// errCloseWriteUnsupported is returned by relay wrappers whose inner connection cannot
+// half-close; relayCore ignores it, which is the same as a bare conn without CloseWrite.
+var errCloseWriteUnsupported = stderrors.New("CloseWrite is not supported by the underlying connection")
+
 // RelayTCP copies data bidirectionally between two connections.
 // A relayCore orchestrates shared cancellation and force-close fallback.
 func RelayTCP(lConn, rConn netproxy.Conn) (err error) {
@@ -575,6 +579,15 @@ func (c *bufioConn) CopyRelayRemainder(dst io.Writer, buf []byte, record func(in
 
 func (c *bufioConn) Read(b []byte) (int, error) {
 	return c.reader.Read(b)
+}
+
+// CloseWrite forwards the half-close to the wrapped connection so that relayCore can pass an
+// upstream EOF on to the client. Without it the wrapper hides the inner CloseWrite.
+func (c *bufioConn) CloseWrite() error {
+	if wc, ok := c.Conn.(WriteCloser); ok {
+		return wc.CloseWrite()
+	}
+	return errCloseWriteUnsupported
 }
 
 func (c *bufioConn) Write(b []byte) (int, error) {
